@@ -908,8 +908,22 @@ mod full {
                 let ay = rkyv::check_archived_root::<Decimal>(&by[..])
                     .map_err(|e| format!("{:?}", e))?;
                 // archived vs archived, archived vs Decimal, Decimal vs archived
+                // ... and <= / >= (provided methods that an impl may override), min / max of two archived values
+                let le_ge = format!(
+                    "{}{}{}{}{}{}",
+                    b(*ax <= *ay), b(*ax >= *ay), b(*ax <= y), b(*ax >= y), b(x <= *ay), b(x >= *ay)
+                );
+                let mn = std::cmp::min(ax, ay);
+                let mx = std::cmp::max(ax, ay);
+                let mm = format!(
+                    "{}{}",
+                    u8::from(mn.partial_cmp(ax) != Some(std::cmp::Ordering::Greater)
+                        && mn.partial_cmp(ay) != Some(std::cmp::Ordering::Greater)),
+                    u8::from(mx.partial_cmp(ax) != Some(std::cmp::Ordering::Less)
+                        && mx.partial_cmp(ay) != Some(std::cmp::Ordering::Less))
+                );
                 format!(
-                    "C aa={}{}{}{}:{}:{} ad={}{}{}{}:{} da={}{}{}{}:{} pr={}{}{}{}",
+                    "C aa={}{}{}{}:{}:{} ad={}{}{}{}:{} da={}{}{}{}:{} pr={}{}{}{} lg={} mm={}",
                     b(*ax == *ay), b(*ax != *ay), b(*ax < *ay), b(*ax > *ay),
                     ordering(ax.partial_cmp(ay)), ordering(Some(ax.cmp(ay))),
                     b(*ax == y), b(*ax != y), b(*ax < y), b(*ax > y),
@@ -917,6 +931,7 @@ mod full {
                     b(x == *ay), b(x != *ay), b(x < *ay), b(x > *ay),
                     ordering(x.partial_cmp(ay)),
                     b(ax.eq_zero()), b(ax.eq_one()), b(ax.is_negative()), b(ax.is_positive()),
+                    le_ge, mm
                 )
             }
             "rk_debug" => {
